@@ -265,6 +265,9 @@ def run_c04(pid):
     dm = P.directed_malformed(pid_n)
     plan_list += dm
     pid_n += len(dm)
+    dm = P.directed_wide_predictors(pid_n)
+    plan_list += dm
+    pid_n += len(dm)
     gen = generate(wd, plan_list, "mal")
     by_plan = {p["id"]: p for p in plan_list}
     items = []
